@@ -121,7 +121,7 @@ func Mutate(r *Rand, doc *GDoc) *Mutation {
 	}
 	join := func() string { return strings.Join(ls, "") }
 	for attempt := 0; attempt < 20; attempt++ {
-		switch r.Intn(14) {
+		switch r.Intn(15) {
 		case 13: // a continuation line of an entry summary that consists of blank characters only
 			i := pickLine("cont")
 			if i < 0 {
@@ -143,6 +143,26 @@ func Mutate(r *Rand, doc *GDoc) *Mutation {
 			_, end := lineBody(ls[i])
 			ls[i] = ind + ind + Pick(r, []string{"\u00a0", "\u3000 ", " \u00a0\t", "\u2003"}) + end
 			return &Mutation{"blank-continuation", join(), i}
+		case 14: // a stray carriage return behind the date or the entry value (a line ending in CR CR LF is not CRLF)
+			i := pickLine("head")
+			if r.P(1, 2) {
+				if j := pickLine("entry"); j >= 0 {
+					body, _ := lineBody(ls[j])
+					if f := strings.Fields(body); len(f) == 1 && strings.TrimLeft(body, " \t") == f[0] { // a value without summary: the CR sticks to the value
+						i = j
+					}
+				}
+			}
+			if i < 0 {
+				continue
+			}
+			body, end := lineBody(ls[i])
+			if info[i].kind == "head" && strings.ContainsAny(body[10:], " \t(") {
+				body = body[:10] // the date alone
+			}
+			end = "\r\n" // CR CR LF: the first CR belongs to the line's text
+			ls[i] = body + "\r" + end
+			return &Mutation{"stray-cr", join(), i}
 		case 0: // malformed / non-Gregorian date
 			i := pickLine("head")
 			if i < 0 {
